@@ -1,6 +1,8 @@
 #!/bin/bash
 # usage: tools/seeds.sh <first> <last> [ids...]   — run the quick checks under several VERIF_SEEDs; any non-zero exit is reported
+# (in a background sweep: vp run --with-repo -- bash tools/seeds.sh 2 12   uses the repository snapshot)
 cd "$(dirname "$0")/.."
+[ -n "${VP_RUN_REPO:-}" ] && export VERIF_REPO="$VP_RUN_REPO"
 A=$1; B=$2; shift; shift
 IDS="${*:-C02 C03 C04 C39 C05 C06 C40}"
 bad=0
